@@ -47,7 +47,9 @@ type respScript struct {
 
 var c03Names = []string{"Proxy-Status", "Upgrade-Insecure-Requests", "Connection-Id", "Keep-Alive-Hint", "Trailer-Info", "Te-Extension", "Transfer-Encoding-Hint", "Proxy-Features",
 	"Content-Type", "Set-Cookie", "Vary", "Link", "Warning", "X-Custom", "ETag", "Cache-Control", "Location", "X-a_B.c", "Server", "Date", "Content-Language", "Accept-Ranges", "WWW-Authenticate", "X-Frame-Options", "Last-Modified"}
-var c03TrailerNames = []string{"Proxy-Trace", "X-Checksum", "Server-Timing", "X-Trailer-A", "X-Trailer-B", "Digest", "X-Long-Trailer-Name-For-Good-Measure", "Grpc-Status", "X-T"}
+var c03TrailerNames = []string{"Proxy-Trace", "X-Checksum", "Server-Timing", "X-Trailer-A", "X-Trailer-B", "Digest", "X-Long-Trailer-Name-For-Good-Measure", "Grpc-Status", "X-T",
+	// names across the alphabet, in particular ones that begin with the letters of "Trailer:" itself
+	"Trace-Id", "Traceparent", "Timing-Allow", "Total-Count", "Tier", "Tail", "Retry-Stats", "Age-At-End", "Etag-Final", "Link-Next", "Irrelevant", "Lease", "e-tag-lower"}
 var c03BodySizes = []int{0, 1, 2, 100, 4095, 4096, 4097, 32767, 32768, 32769, 100000}
 
 func genResp(rng *rand.Rand, tok string, status int, big bool) *respScript {
